@@ -4,14 +4,43 @@ from core.runner import viol
 from harness import cluster
 
 
+def prelude(cfg):
+    """process-wide state must not leak from one link into the next: a configuration flagged 'prelude' is first exercised once on objects of its own
+    (two publications, every consumer pulls after each; result discarded) in the same process, then explored on fresh objects; replays repeat this"""
+    if not cfg.get("prelude"):
+        return
+    from fractions import Fraction as Fr
+
+    try:
+        cluster.set_time_unit(cfg.get("unit_us", 3600 * 10**6))
+        c = cluster.Cluster(cfg)
+        for t in (1, 2):
+            c.apply(("push", 1))
+            for k in range(len(c.inps)):
+                c.apply(("pull", k, Fr(t)))
+    except BaseException:  # noqa
+        pass
+
+
+def with_prelude(cfgs, limit=40):
+    seen, out = set(), []
+    for c in cfgs:
+        key = tuple(sorted({t[0] for ch in c["consumers"] for t in ch})), c.get("payload")
+        if key not in seen and not c.get("unit_us") and len(out) < limit:
+            seen.add(key)
+            out.append(dict(c, prelude=True))
+    return out
+
+
 def run_case(case):
     cfg = case["cfg"]
+    prelude(cfg)
     if case.get("path") is not None:
         vs = cluster.run_path(cfg, case["path"])
         return dict(n=1, violations=[viol(fp, what, dict(cfg=cfg, path=p)) for _c, fp, what, p in vs])
     r = cluster.explore(cfg, max_depth=cfg.get("max_depth"), max_states=cfg.get("max_states", 150000), max_seconds=cfg.get("max_seconds", 900))
     res = dict(n=1, states=r["states"], transitions=r["transitions"], traces=r["transitions"], nontrivial=1 if r["states"] > 10 else 0,
-               counters={"evictions_at_output": r["stats"].get("evictions", 0), "fixpoints_reached": 1 if r["fixpoint"] else 0, "depth_bounded_searches": 1 if cfg.get("max_depth") else 0}, violations=[])
+               counters={"evictions_at_output": r["stats"].get("evictions", 0), "fixpoints_reached": 1 if r["fixpoint"] else 0, "depth_bounded_searches": 1 if cfg.get("max_depth") else 0, "explored_after_a_first_use_in_the_same_process": 1 if cfg.get("prelude") else 0}, violations=[])
     if r["capped"] or (not r["fixpoint"] and not cfg.get("max_depth")):
         res["capped"] = dict(consumers=cfg["consumers"], window=cfg.get("window"), cap=r["capped"], depth=r["max_depth_reached"])
     for _c, fp, what, p in r["violations"]:
@@ -21,7 +50,8 @@ def run_case(case):
 
 
 def run_cases(cfgs, agg, seed=0):
-    cs = [dict(cfg=c) for c in cfgs]
+    cfgs = list(cfgs)
+    cs = [dict(cfg=c) for c in cfgs + with_prelude(cfgs)]
     k = seed % max(1, len(cs))
     for r in pmap(run_case, cs[k:] + cs[:k]):
         agg.add(r)
